@@ -137,6 +137,24 @@ def call_api(ssj, case, ltable, rtable, tokenizer):
     else:
         flt = cls(tokenizer, case['meas'], thr, allow_empty=bool(case.get('ae', 1)),
                   allow_missing=bool(case.get('am', 0)))
+    if case.get('prewarm'):
+        # the same filter object used before with its tokenizer configured the other way (set <-> bag) on the same
+        # tables; the judged call follows with the tokenizer back in its own configuration
+        mode = bool(tokenizer.get_return_set())
+        tokenizer.set_return_set(not mode)
+        try:
+            flt.filter_tables(ltable, rtable, *keys, n_jobs=1, show_progress=False)
+            for lv in ltable[keys[2]].tolist()[:3]:
+                for rv in rtable[keys[3]].tolist()[:3]:
+                    flt.filter_pair(lv, rv)
+        except Exception:
+            pass
+        finally:
+            tokenizer.set_return_set(mode)
+        from . import lib as _lib
+        vh = _lib.hooks_module()
+        if vh:
+            vh.drain()
     return flt.filter_tables(ltable, rtable, *keys, **kw)
 
 
